@@ -386,6 +386,9 @@ func flight4Generate(
 	); err != nil {
 		return nil, nil, err
 	}
+	if err = commitFinalServerHello(state, serverHello, cipherSuiteID); err != nil {
+		return nil, nil, err
+	}
 	decision := negotiation.DecideConnectionID(offer, serverHello.Extensions)
 	content := handshake.Handshake{Message: serverHello}
 
@@ -565,4 +568,26 @@ func serverCIDExtension(state *dtlsstate.State12, cfg *dtlsconfig.HandshakeConfi
 	}
 
 	return &extension.ConnectionID{CID: cid}
+}
+
+// commitFinalServerHello makes the server's own view follow the ServerHello
+// that leaves after the message hook ran: the client can only act on that
+// message. The application protocol is taken from it; another cipher suite
+// than the one the keys are derived for is refused.
+func commitFinalServerHello(
+	state *dtlsstate.State12,
+	serverHello *handshake.MessageServerHello,
+	cipherSuiteID uint16,
+) error {
+	if serverHello.CipherSuiteID == nil || *serverHello.CipherSuiteID != cipherSuiteID {
+		return newSRTPError(dtlserrors.ErrInvalidServerHello, alert.InternalError)
+	}
+	state.NegotiatedProtocol = ""
+	for _, ext := range serverHello.Extensions {
+		if selection, ok := ext.(*extension.ALPNSelection); ok {
+			state.NegotiatedProtocol = selection.Protocol
+		}
+	}
+
+	return nil
 }
